@@ -554,7 +554,7 @@ Section Access.
   Theorem missing_label_get x : pos x ls = None -> get_item_with lc st name (KLabel x) = Raise KeyError.
   Proof. intros H. unfold get_item_with. rewrite Hvar. simpl. rewrite (lc_absent x H). reflexivity. Qed.
   Theorem missing_label_set x w : pos x ls = None -> set_item_with lc st name (KLabel x) w = (st, Raise KeyError).
-  Proof. intros H. unfold set_item_with. destruct (lookup name (c_vars st)); [|reflexivity]. rewrite (lc_absent x H). reflexivity. Qed.
+  Proof. intros H. unfold set_item_with. generalize (lookup name (c_vars st)). intros [s0|]; [|reflexivity]. rewrite (lc_absent x H). reflexivity. Qed.
 
   (* a slice one of whose bounds is absent (the other bound given, or the span not empty) *)
   Definition bound_given_or_nonempty (o : option label) : Prop := match o with Some _ => True | None => ls <> [] end.
@@ -589,7 +589,7 @@ Section Access.
     (exists x, a = Some x /\ pos x ls = None) \/ (start_pos ls a <> None /\ exists y, b = Some y /\ pos y ls = None) ->
     set_item_with lc st name (KSlice a b s) w = (st, Raise KeyError).
   Proof.
-    intros ND Ga Gb H. unfold set_item_with. destruct (lookup name (c_vars st)); [|reflexivity].
+    intros ND Ga Gb H. unfold set_item_with. generalize (lookup name (c_vars st)). intros [s0|]; [|reflexivity].
     rewrite (resolve_slice_missing a b s ND Ga Gb H). reflexivity.
   Qed.
 
@@ -680,13 +680,13 @@ Section WriteRead.
     { intros d' HL. destruct (set_data_ok d' HL) as [A [B [sr' [C [D [E _]]]]]]. split; [exact A|]. split; [exact B|].
       exists sr'. split; [exact C|]. split; [rewrite D, HL; exact Hlen | exact E]. }
     destruct w as [x v|a b s o|i v|o id]; simpl; intros H.
-    - unfold set_item_with in H. destruct (lc x) as [l|e]; [|inversion H]. rewrite Hvar in H.
+    - unfold set_item_with in H. rewrite Hvar in H. destruct (lc x) as [l|e]; [|inversion H].
       destruct l as [i fl|i j].
       + fold data in H. destruct (py_set data i v) as [d|] eqn:E; inversion H; subst.
         apply K. unfold py_set in E. destruct (py_pos (length data) i); inversion E. apply upd_length.
       + fold data in H. simpl in H. inversion H; subst. apply K. apply scatter1_length.
-    - unfold set_item_with in H. destruct (resolve_slice_with lc (c_span st) a b s) as [[[i j] s']|e]; [|inversion H].
-      rewrite Hvar in H. fold data in H.
+    - unfold set_item_with in H. rewrite Hvar in H.
+      destruct (resolve_slice_with lc (c_span st) a b s) as [[[i j] s']|e]; [|inversion H]. fold data in H.
       destruct (np_slice_positions (length data) i j s') as [ps|e]; simpl in H; [|inversion H].
       destruct (assign data ps o) as [d|e] eqn:E; inversion H; subst. apply K. eapply assign_length; eauto.
     - unfold set_pos in H. rewrite Hvar in H. fold data in H.
